@@ -4,6 +4,7 @@ import (
 	"errors"
 	"fmt"
 	"path/filepath"
+	"strings"
 	"sync"
 	"sync/atomic"
 	"testing"
@@ -11,8 +12,8 @@ import (
 	"github.com/tailscale/setec/acl"
 	"github.com/tailscale/setec/audit"
 	"github.com/tailscale/setec/db"
-	"verifharness/dbx"
 	"pgregory.net/rapid"
+	"verifharness/dbx"
 	"verifharness/h"
 	"verifharness/model"
 )
@@ -171,8 +172,9 @@ type Ask struct {
 }
 
 type ManyAsksCase struct {
-	Rules []RuleM `json:"rules"`
-	Asks  []Ask   `json:"asks"`
+	Rules []RuleM  `json:"rules"`
+	Asks  []Ask    `json:"asks"`
+	Swap  []string `json:"swap,omitempty"` // patterns that replace the rules' patterns in place, in order (empty = no edit)
 }
 
 func runManyAsks(t *testing.T, c ManyAsksCase) (*h.Violation, h.Info) {
@@ -191,12 +193,68 @@ func runManyAsks(t *testing.T, c ManyAsksCase) (*h.Violation, h.Info) {
 		}
 	}
 	info.NonTrivial = len(c.Rules) >= 2 && len(acts) >= 2
+	// The policy is edited IN PLACE - the same rule-set value, the same rules, the same number of
+	// patterns, other pattern texts (a program that reloads its policy into the variable it has) - and
+	// asked again: the answers follow the patterns the rules hold NOW.
+	if len(c.Swap) > 0 {
+		edited := make([]RuleM, len(c.Rules))
+		for i, r := range c.Rules {
+			edited[i] = RuleM{Action: r.Action, Secret: append([]string{}, r.Secret...)}
+		}
+		k := 0
+		for i := range rules {
+			for j := range rules[i].Secret {
+				p := c.Swap[k%len(c.Swap)]
+				k++
+				rules[i].Secret[j] = acl.Secret(p)
+				edited[i].Secret[j] = p
+			}
+		}
+		if k > 0 {
+			info.Class("policy-edited-in-place")
+			for i, a := range c.Asks {
+				want := modelAllow(edited, a.Action, a.Name)
+				var got bool
+				if v := h.Safely(func() *h.Violation { got = rules.Allow(acl.Action(a.Action), a.Name); return nil }); v != nil {
+					return h.V("evaluation-never-panics", "after the edit, question %d (%q,%q): %s", i, a.Action, a.Name, v.Detail), info
+				}
+				if got != want {
+					return h.V("rules-allow", "the rule set %+v was evaluated, then its patterns were replaced in place (same rules, same counts): it now reads %+v, yet Allow(%q,%q) answers %v, the model says %v", c.Rules, edited, a.Action, a.Name, got, want), info
+				}
+			}
+		}
+	}
 	// the same questions to the database layer
 	d, err := dbx.OpenDiscard(filepath.Join(h.Scratch(t), "db"), dbx.DummyKey())
 	if err != nil {
 		return h.V("harness", "open: %v", err), info
 	}
 	caller := db.Caller{Principal: audit.Principal{User: "asker@example.com", Hostname: "asker"}, Permissions: toACL(c.Rules)}
+	// a listing is a question about every stored name at once: each name is shown iff ONE rule lists
+	// info and matches it (the asked-about names are stored first, by somebody who may)
+	root := db.Caller{Principal: audit.Principal{User: "root@example.com", Hostname: "root"}, Permissions: acl.Rules{{Action: []acl.Action{acl.ActionPut}, Secret: []acl.Secret{"*"}}}}
+	stored := map[string]bool{}
+	for _, a := range c.Asks {
+		if a.Name != "" && !strings.HasPrefix(a.Name, "_internal/") && !stored[a.Name] {
+			if _, err := d.Put(root, a.Name, []byte("v")); err == nil {
+				stored[a.Name] = true
+			}
+		}
+	}
+	if infos, err := d.List(caller); err != nil {
+		return h.V("rules-allow", "through the database API: List as a caller holding %+v fails: %v", c.Rules, err), info
+	} else {
+		shown := map[string]bool{}
+		for _, in := range infos {
+			shown[in.Name] = true
+		}
+		for n := range stored {
+			if want := modelAllow(c.Rules, "info", n); shown[n] != want {
+				return h.V("rules-allow", "through the database API: a listing for a caller holding %+v shows %q = %v; the model says a single rule listing info and matching the name exists = %v", c.Rules, n, shown[n], want), info
+			}
+		}
+		info.Class("listing-through-the-database-api")
+	}
 	for i, a := range c.Asks {
 		if a.Name == "" {
 			continue
@@ -223,7 +281,7 @@ func runManyAsks(t *testing.T, c ManyAsksCase) (*h.Violation, h.Info) {
 
 var manyAsks = &h.Campaign[ManyAsksCase]{
 	Prop: "C07", Sub: "one-rule-set-many-questions",
-	Rule: "rapid: a rule set of 1-4 generated rules, built ONCE, is asked 2-12 generated (action, name) questions in a row - names include spellings a path cleaner would alter (dev/../prod/a, dev//a, dev/a/, ./a); every answer equals the model's whatever was asked before; then the read/delete questions are put to a database as a caller holding those rules: refused exactly when the model does not allow; non-trivial = at least two rules and two different actions asked; distinct by scenario",
+	Rule:  "rapid: a rule set of 1-4 generated rules, built ONCE, is asked 2-12 generated (action, name) questions in a row - names include spellings a path cleaner would alter (dev/../prod/a, dev//a, dev/a/, ./a); every answer equals the model's whatever was asked before; then the read/delete questions are put to a database as a caller holding those rules: refused exactly when the model does not allow; non-trivial = at least two rules and two different actions asked; distinct by scenario",
 	Quick: 3000, Thorough: 400000,
 	Gen: func(rt *rapid.T) ManyAsksCase {
 		names := append(append([]string{}, namePool...), "dev/../prod/a", "dev//a", "dev/a/", "./a", "prod/a/..", "dev/./a", "Dev/a")
@@ -232,6 +290,7 @@ var manyAsks = &h.Campaign[ManyAsksCase]{
 			Asks: rapid.SliceOfN(rapid.Custom(func(rt *rapid.T) Ask {
 				return Ask{Action: rapid.SampledFrom([]string{"get", "info", "put", "activate", "delete", "get", "info"}).Draw(rt, "action"), Name: rapid.SampledFrom(names).Draw(rt, "name")}
 			}), 2, 12).Draw(rt, "asks"),
+			Swap: rapid.SliceOfN(rapid.SampledFrom(patPool), 0, 4).Draw(rt, "swap"),
 		}
 	},
 	Run: runManyAsks,
